@@ -373,4 +373,45 @@ def parse (s : List Char) : Nat → P
         | ((some false, _), tr) => (.ok pre, tr)
         | ((none, x), tr) => (x, tr)
 
+/-! ### the element's action configuration as a state machine
+
+`parseAction` (a list) and `callDuringTry` (a flag) are attributes of the element; the operations that change them
+are `set_parse_action` (core.py:700-711), `add_parse_action` (core.py:719-724), `add_condition` (core.py:748-761),
+`set_parse_action(None)` (core.py:700-702) and `copy()` / `expr("name")` (core.py:536-547, both keep them).
+The gate of `_parseNoCache` (core.py:870) reads the attributes as they are when the element is matched, so an
+element built through a history of operations is `E.act` with the configuration the history ends in. -/
+
+/-- `kwargs.get("call_during_try", kwargs.get("callDuringTry", False))`; `none` = keyword not given -/
+def kw (k : Option Bool) : Bool := k.getD false
+
+inductive Op where
+  | setAct (as : List Act) (k : Option Bool)    -- set_parse_action(*as, call_during_try=k)
+  | addAct (as : List Act) (k : Option Bool)    -- add_parse_action(*as, call_during_try=k)
+  | addCond (as : List Act) (k : Option Bool)   -- add_condition(*as, call_during_try=k): each wrapped in `pa`
+  | clear                                       -- set_parse_action(None)
+  | copy                                        -- copy() / expr("name")
+  deriving Repr, Inhabited
+
+/-- (`parseAction`, `callDuringTry`) -/
+structure ACfg where
+  acts : List Act
+  cdt : Bool
+  deriving Repr, Inhabited, DecidableEq
+
+/-- `ParserElement.__init__` (core.py:474, 487) -/
+def ACfg.init : ACfg := ⟨[], false⟩
+
+def applyOp (c : ACfg) : Op → ACfg
+  | .setAct as k => ⟨as, kw k⟩                      -- parseAction[:] = …; callDuringTry = kwargs.get(…)
+  | .addAct as k => ⟨c.acts ++ as, c.cdt || kw k⟩   -- parseAction += …;  callDuringTry = callDuringTry or kwargs.get(…)
+  | .addCond as k => ⟨c.acts ++ as, c.cdt || kw k⟩
+  | .clear => ⟨[], c.cdt⟩                           -- parseAction.clear(); return self   (the flag is not touched)
+  | .copy => c
+
+def runOpsFrom (c : ACfg) (ops : List Op) : ACfg := ops.foldl applyOp c
+def runOps (ops : List Op) : ACfg := runOpsFrom .init ops
+
+/-- the element `e` after the operations `ops` were applied to it -/
+def E.ofHist (ops : List Op) (e : E) : E := .act (runOps ops).acts (runOps ops).cdt e
+
 end PP.ActionGate
